@@ -359,7 +359,22 @@ func (g *Gen) actIngestExcise() {
 	if len(tbl) == 0 {
 		tbl = append(tbl, Ev{"o": "set", "k": a, "v": g.v()})
 	}
+	// the table need not lie inside the excise span: sometimes its largest key is exactly the
+	// (exclusive) end of the span, sometimes it starts below the span
+	if b < g.U.R() && g.Rng.IntN(3) == 0 {
+		tbl = append(tbl, Ev{"o": "set", "k": b, "v": g.v()})
+	}
+	if a > 0 && g.Rng.IntN(5) == 0 {
+		tbl = append(tbl, Ev{"o": "set", "k": g.Rng.IntN(a), "v": g.v()})
+	}
 	sort.Slice(tbl, func(i, j int) bool { return tbl[i].I("k") < tbl[j].I("k") })
+	if g.Rng.IntN(2) == 0 && !g.P.FlushBeforeIngest {
+		// make the table overlap the memtable: with a WAL the ingestion is then queued as a
+		// flushable and applied to the LSM only at the next flush
+		w := []Ev{{"o": "set", "k": tbl[g.Rng.IntN(len(tbl))].I("k"), "v": g.v()}}
+		g.R.Exec(Ev{"op": "commit", "ops": w, "sync": false})
+		g.track(w)
+	}
 	g.preIngest()
 	g.R.Exec(Ev{"op": "ingestexcise", "a": a, "b": b, "tables": [][]Ev{tbl}, "ops": tbl})
 	g.trackExcise(a, b)
